@@ -307,6 +307,10 @@ def check_encoder_loop(ctx, f):
         if c is None:
             continue
         cc = X.strip(c)
+        neg = False
+        while cc.get("k") == "un" and cc.get("op") == "!":
+            neg = not neg
+            cc = X.strip(cc["e"])
         if not (cc.get("k") == "call" and cc.get("qname") == "ada::character_sets::bit_at"):
             continue
         if b["term"].get("kind") != "IfStmt":
@@ -316,9 +320,9 @@ def check_encoder_loop(ctx, f):
         ok_set = setarg.get("k") == "ref" and setarg.get("kind") == "param"
         tb = fb = None
         for s in b["succ"]:
-            if s["when"] == "true":
+            if s["when"] == ("false" if neg else "true"):
                 tb = blocks[s["to"]]
-            elif s["when"] == "false":
+            else:
                 fb = blocks[s["to"]]
         t_txt = " ; ".join(X.show(e) for s in (tb or {}).get("stmts", []) for e in X.stmt_exprs(s))
         f_txt = " ; ".join(X.show(e) for s in (fb or {}).get("stmts", []) for e in X.stmt_exprs(s))
